@@ -23,15 +23,15 @@ func (h aggregatedBalancesResourceRepositoryHandler) BuildDataset(query common.R
 	canPushLateral := canPushAddressFilterToLateral(query.Builder)
 
 	if query.UsePIT() {
+		if !h.store.ledger.HasFeature(features.FeatureMovesHistory, "ON") {
+			return nil, NewErrMissingFeature(features.FeatureMovesHistory)
+		}
+
 		ret := h.store.newScopedSelect().
 			ModelTableExpr(h.store.GetPrefixedRelationName("moves")).
 			DistinctOn("accounts_address, asset").
 			Column("accounts_address", "asset")
 		if query.Opts.UseInsertionDate {
-			if !h.store.ledger.HasFeature(features.FeatureMovesHistory, "ON") {
-				return nil, NewErrMissingFeature(features.FeatureMovesHistory)
-			}
-
 			ret = ret.
 				ColumnExpr("first_value(post_commit_volumes) over (partition by (accounts_address, asset) order by seq desc) as volumes").
 				Where("insertion_date <= ?", query.PIT)
